@@ -108,7 +108,7 @@ def run(ctx):
     ctx.cov["trusted_base"] = ["TLC", "numpy", "eko basis functions (LO delta direction)", "math.nextafter"]
     ctx.tlc_check("MC_Thresholds", common.cfg_text({}, invariants=["Inv_HP", "Inv_Class", "Inv_Mono", "Inv_CC"]), coverage=False,
                   min_states=100, min_depth=2)
-    obls = ctx.tlc_emit("Emit_C09", common.cfg_text({}, spec=None))
+    obls = ctx.tlc_emit("Emit_C09", common.cfg_text(dict(DEEP=not ctx.quick), spec=None))
     todo = []
     for o in obls:
         o["oid"] = common.oid_of("C09", {k: o[k] for k in ("proc", "x", "Q2", "m2", "hq", "nfff")})
